@@ -402,7 +402,7 @@ def run(tier):
         PID, tier, progs, t0, outcome=out, extra=extra,
         rule="one Kani harness per (operator, base impl form, Rhs = Self | other type, requested set): operand payloads symbolic; every generated form is called; "
              "value, number/kind of clones and the single call of the user's impl are asserted; distinct by op|base|rhs|requested",
-        bounds="10 operators x 4 base forms x Rhs in {Self, B} x {Op},{OpAssign},{Op,OpAssign}, base impl OpAssign<Rhs|&Rhs> with {Op}; generic G<T> with `Self` in Output "
+        bounds="10 operators x 4 base forms x Rhs in {Self, B} x {Op},{OpAssign},{Op,OpAssign},{OpAssign,Op}, base impl OpAssign<Rhs|&Rhs> with {Op}; generic G<T> with `Self` in Output "
                "and where-clause and Rhs defaulting to Self; user body non-commutative and call-recording; Clone of operand types records",
         outside="base impls on `&mut T`; `Self` in the where-clause of a base impl on `&T` (an anonymous lifetime cannot be carried over); Output types other than the Self type for the OpAssign forms; order of the two clones (not stated)",
         functions=["every impl generated by derive_ex on an `impl Op<..> for ..` item (item_impl path)"])
